@@ -508,7 +508,20 @@ Fixpoint check_ops (e : env) (r : registry) (l : list (cop * cobs)) : bool :=
           | Some o => value_ok (match p_post (get_pipe r n) with PRescale => negb skip | _ => false end) mv o
           | None => false
           end
-      | OCalled mtr (Rejected er) => (code =? code_of_err er) && list_eqb ev_eqb mtr tr && match v with None => true | _ => false end
+      | OCalled mtr (Rejected er) =>
+          (* a refused call (no source) evaluates nothing - compared exactly.  When a callable / combiner / post-processor
+             RAISES on a value of the wrong shape, the property does not say what else was evaluated before the error
+             surfaced (e.g. whether list_combiner looks up `value.append` before or after evaluating the modifier): only
+             the outcome class and "the source came first, with the caller's arguments" are compared *)
+          (code =? code_of_err er) &&
+          match er with
+          | EDynamicValue => list_eqb ev_eqb mtr tr
+          | _ => match mtr, tr with
+                 | m0 :: _, t0 :: _ => ev_eqb m0 t0
+                 | [], [] => true
+                 | _, _ => false
+                 end
+          end && match v with None => true | _ => false end
       | _ => false
       end && check_ops e r' rest
   | _ :: _ => false
